@@ -2,6 +2,8 @@ package main
 
 import (
 	"bytes"
+	"crypto/sha256"
+	"encoding/hex"
 	"encoding/json"
 	"fmt"
 	"go/ast"
@@ -827,6 +829,48 @@ func writeEffects() []site {
 	return out
 }
 
+// the text of everything the hand-written model was written against: one fingerprint per function
+// (signature + body, comments dropped, locals alpha-renamed) and per package-level declaration
+func modelledCode() []site {
+	var out []site
+	fp := func(text string) string {
+		h := sha256.Sum256([]byte(text))
+		return hex.EncodeToString(h[:8])
+	}
+	for _, rel := range nonTestGoFiles() {
+		f := parseRepoFile(rel)
+		for _, d := range f.Decls {
+			switch x := d.(type) {
+			case *ast.FuncDecl:
+				body := ""
+				if x.Body != nil {
+					body = exprStr(x.Body)
+				}
+				out = append(out, site{rel, funcName(x), "body", fp(alphaOf(x)(exprStr(x.Type) + " " + body))})
+			case *ast.GenDecl:
+				if x.Tok == token.IMPORT {
+					continue
+				}
+				for i, sp := range x.Specs {
+					name := ""
+					switch s := sp.(type) {
+					case *ast.ValueSpec:
+						var ns []string
+						for _, n := range s.Names {
+							ns = append(ns, n.Name)
+						}
+						name = strings.Join(ns, ",")
+					case *ast.TypeSpec:
+						name = s.Name.Name
+					}
+					out = append(out, site{rel, name, "decl", fp(fmt.Sprintf("%s#%d %s", x.Tok, i, exprStr(sp)))})
+				}
+			}
+		}
+	}
+	return out
+}
+
 func writeJSON(path string, v any) {
 	data, _ := json.MarshalIndent(v, "", " ")
 	writeIfChanged(path, string(data)+"\n")
@@ -1037,5 +1081,6 @@ func init() {
 		writeJSON(filepath.Join(inv, "panic_sites.json"), panicSites())
 		writeJSON(filepath.Join(inv, "write_effects.json"), writeEffects())
 		writeJSON(filepath.Join(inv, "shared_state.json"), sharedState())
+		writeJSON(filepath.Join(inv, "modelled_code.json"), modelledCode())
 	}
 }
